@@ -176,21 +176,7 @@ fn shutdown_points(c: &mut Case, scale: Scale) {
     // parser, active stream None, would interpret a pipelined BeginRequest itself — see §9.4)
     let pipelined = pipelined && case.reqs.iter().all(|r| r.preamble.role != crate::wire::AUTHORIZER);
     if pipelined {
-        // (the whole next request must fit into the look-ahead: large buffer, large pieces)
-        case.buffer = 8192;
-        case.max_piece = 100_000;
-        // a client that does not wait for EndRequest: every handler reads its input to the end so
-        // that the next request stays buffered behind the held terminator
-        case.barriers.clear();
-        for (s, r) in case.scripts.iter_mut().zip(&case.reqs) {
-            let mut ops = vec![Op::ReadToEnd];
-            if r.preamble.role == crate::wire::FILTER {
-                ops.push(Op::SetStream(crate::wire::DATA));
-                ops.push(Op::ReadToEnd);
-            }
-            ops.extend(s.ops.iter().filter(|o| matches!(o, Op::Write(..) | Op::Flush(_) | Op::Yield)).cloned());
-            *s = Script { ops, propagate: true, status: s.status };
-        }
+        conn::make_pipelined(&mut case);
     }
     let Ok(model) = conn_model(&case) else { return };
     let seed = c.rng.next_u64();
